@@ -91,8 +91,27 @@ pub fn check_formula(ctx: &NetCtx, f: &F, ck: Checks, expected: Option<&[Mask]>)
             handle("model_check_formula", ctx.formula(&text), true);
             handle("model_check_tree_dirty", ctx.tree_dirty(f), false);
             handle("model_check_tree", ctx.tree(f), true);
+            if ck.unit {
+                // the self-loop-free variant is an entry point too: whatever it computes must stay inside the unit set
+                // (its meaning is C18's subject, so no semantic comparison here)
+                match ctx.run(|| biodivine_hctl_model_checker::model_checking::model_check_formula_unsafe_ex(&text, &ctx.b.graph)) {
+                    Got::Set(s) => {
+                        if ctx.b.outside_unit(&s) {
+                            bad.push(("model_check_formula_unsafe_ex".to_string(), "result is not a subset of the graph's unit set".to_string()));
+                        }
+                        if ctx.b.depends_on_extras(&s) {
+                            bad.push(("model_check_formula_unsafe_ex".to_string(), "result of a closed formula depends on auxiliary (HCTL state-variable) BDD variables".to_string()));
+                        }
+                    }
+                    Got::Err(e) => bad.push(("model_check_formula_unsafe_ex".to_string(), format!("unexpected Err for a closed well-formed formula: {e}"))),
+                    Got::Panic(p) => bad.push(("model_check_formula_unsafe_ex".to_string(), format!("panic: {p}"))),
+                }
+            }
         }
         Entries::PlainDirty => {
+            if let Some(m) = &minimal {
+                handle("model_check_formula_dirty on the minimal-parentheses text", ctx.formula_dirty(m), false);
+            }
             handle("model_check_formula_dirty", ctx.formula_dirty(&text), false);
         }
         Entries::Ext2 => {
